@@ -183,6 +183,8 @@ type whistOpts struct {
 	Hostile                bool
 	Tags                   bool
 	Dirty                  bool // leave uncommitted row edits in the working set of every branch
+	TypeChange             bool // MODIFY COLUMN int -> bigint / varchar(200) -> varchar(300)
+	UniqueIdx              bool // some secondary indexes are UNIQUE (their name starts with "u")
 }
 
 func genWHist(r *rand.Rand, db string, o whistOpts) *whist {
@@ -320,10 +322,15 @@ func genWHist(r *rand.Rand, db string, o whistOpts) *whist {
 				return
 			}
 			in := fmt.Sprintf("i%d", nextIdx)
-			nextIdx++
+			uniq := ""
 			cn := pick(cands)
+			if o.UniqueIdx && r.Intn(2) == 0 && columnDistinct(t, cn) { // fresh cell values are unique; a DEFAULT fill is not
+				in, uniq = fmt.Sprintf("u%d", nextIdx), "unique "
+				h.Kinds["add-unique-index"]++
+			}
+			nextIdx++
 			w.M[n].Idx[in] = cn
-			add(fmt.Sprintf("create index `%s` on `%s` (`%s`)", in, n, cn))
+			add(fmt.Sprintf("create %sindex `%s` on `%s` (`%s`)", uniq, in, n, cn))
 			h.Kinds["add-index"]++
 		case k == 7 && o.Defaults && len(ed) > 0:
 			n := pick(ed)
@@ -347,6 +354,27 @@ func genWHist(r *rand.Rand, db string, o whistOpts) *whist {
 				add(fmt.Sprintf("alter table `%s` alter column `%s` set default %s", n, col.Name, lit))
 			}
 			h.Kinds["change-default"]++
+		case k == 9 && o.TypeChange && len(ed) > 0: // widen a column type in place (position and values unchanged)
+			n := pick(ed)
+			t := w.S[n]
+			var cands []int
+			for i, c := range t.Cols {
+				if c.Type == "int" || c.Type == "varchar(200)" {
+					cands = append(cands, i)
+				}
+			}
+			if len(cands) == 0 {
+				return
+			}
+			i := cands[r.Intn(len(cands))]
+			nt := "bigint"
+			if t.Cols[i].Type != "int" {
+				nt = "varchar(300)"
+			}
+			t.Cols[i].Type = nt
+			delete(w.M[n].Defaults, t.Cols[i].Name)
+			add(fmt.Sprintf("alter table `%s` modify column `%s` %s", n, t.Cols[i].Name, nt))
+			h.Kinds["type-change"]++
 		case k == 8 && o.PKChange && len(ed) > 1:
 			n := pick(ed)
 			w.M[n].PKDropped = true
@@ -1032,4 +1060,24 @@ var c32FindingClass = map[string]bool{
 	"c32/patch-roundtrip/statement-error/index-same-columns":             true,
 	"c32/patch-roundtrip/statement-error/drop-index-after-drop-column":   true,
 	"c32/patch-roundtrip/statement-error/drop-index-uses-old-table-name": true,
+}
+
+// columnDistinct reports whether the non-NULL values of a column are pairwise distinct (a UNIQUE index can be built).
+func columnDistinct(t *sqlrig.Table, col string) bool {
+	for i, c := range t.Cols {
+		if c.Name != col {
+			continue
+		}
+		seen := map[string]bool{}
+		for _, row := range t.Rows {
+			if row[i] == sqlrig.Null {
+				continue
+			}
+			if seen[row[i]] {
+				return false
+			}
+			seen[row[i]] = true
+		}
+	}
+	return true
 }
